@@ -230,12 +230,7 @@ pub fn eval_v<A: HC>(v: &V) -> R<Seq<A>> {
             Seq::<A>::from_raw(*n, s.into_raw()).ok_or(Fail::NoneVal)?
         }
         V::FromWords(n, ws) => Seq::<A>::from_raw(*n, ws).ok_or(Fail::NoneVal)?,
-        V::OfKmer(k, s) => eval_s::<A, _>(s, &mut |x| {
-            with_k!(*k, K => {
-                let km: Kmer<A, K> = Kmer::try_from(x)?;
-                Ok(Seq::<A>::from(km))
-            })
-        })?,
+        V::OfKmer(k, s) => eval_s::<A, _>(s, &mut |x| A::ofkmer_dispatch(*k, x))?,
     })
 }
 
@@ -246,12 +241,7 @@ pub fn eval_s<A: HC, T>(s: &S, k: &mut dyn FnMut(&SeqSlice<A>) -> R<T>) -> R<T> 
             k(&owned)
         }
         S::Sl(f, a, b, inner) => eval_s::<A, T>(inner, &mut |x| k(index_form(x, *f, *a, *b))),
-        S::Kd(kk, inner) => eval_s::<A, T>(inner, &mut |x| {
-            with_k!(*kk, K => {
-                let km: Kmer<A, K> = Kmer::try_from(x)?;
-                k(&km)
-            })
-        }),
+        S::Kd(kk, inner) => eval_s::<A, T>(inner, &mut |x| A::kd_dispatch(*kk, x, k)),
         S::Lit(id) => match crate::lits::lit::<A>(*id) {
             Some(l) => k(l),
             None => Err(Fail::Unsup),
